@@ -81,6 +81,26 @@ def cases(tier, seed):
             ufo["lib"] = {"public.skipExportGlyphs": skip}
         out.append({"cid": f"c13-{seed}-ly{k}", "lib": rng2.choice(["ufoLib2", "defcon"]), "flavor": flavor, "ufo": ufo,
                     "kwargs": kwargs, "wantCmap": True, "skip": skip})
+    # static instances of a designspace (Instantiator.generate_instance, then compileTTF / compileOTF of the instance): the
+    # designspace's list is the one that counts, also when the default source's own lib holds another (stale) list
+    rng3 = random.Random(seed * 67867967 + 130014)
+    for k in range(8 if tier == "quick" else 100):
+        flavor = "cff" if k % 2 else "tt"
+        glyphs = gen.glyphset(rng3, kinds=["line"], palette=c02.PALETTE_TT, unicodes=True)
+        names = sorted(glyphs)
+        skip = gen.subset(rng3, names, 0.35) or names[:1]
+        if len(skip) == len(names):
+            skip = skip[:-1]
+        rest = [n_ for n_ in names if n_ not in skip]
+        stale = [] if k % 4 == 3 else (gen.subset(rng3, rest, 0.3) or rest[:1])
+        if len(stale) == len(rest):
+            stale = stale[:-1]
+        try:
+            m1 = gen.perturb_master(rng3, glyphs, palette=c02.PALETTE_TT, change_2x2=0.0)
+        except RuntimeError:
+            continue
+        out.append({"cid": f"c13-{seed}-in{k}", "inst": True, "lib": rng3.choice(["ufoLib2", "defcon"]), "flavor": flavor,
+                    "masters": [glyphs, m1], "dsSkip": skip, "ufoSkip": stale if k % 4 != 2 else None, "kwargs": {}, "skip": skip})
     nv = 40 if tier == "quick" else 600
     for k in range(nv):
         out.append(_var_case(rng, f"c13-{seed}-v{k}", mode={1: "chain", 3: "diffbuilt", 5: "interp2"}.get(k % 8)))
@@ -317,9 +337,48 @@ def _execute_var(case):
     return [rec]
 
 
+def _execute_inst(case):
+    from fontTools.designspaceLib import InstanceDescriptor
+
+    from ufo2ft.instantiator import Instantiator
+
+    from .. import absfont, dsbuild
+
+    info = {"unitsPerEm": 1000, "ascender": 800, "descender": -200, "familyName": "InstSkip"}
+    masters = []
+    for k, gs in enumerate(case["masters"]):
+        ufo = {"glyphs": copy.deepcopy(gs), "order": sorted(gs), "glyphNames": sorted(gs), "info": dict(info, styleName=f"M{k}")}
+        if k == 0 and case.get("ufoSkip") is not None:
+            ufo["lib"] = {"public.skipExportGlyphs": list(case["ufoSkip"])}
+        masters.append({"loc": {"Weight": [0, 8][k]}, "ufo": ufo, "name": f"M{k}"})
+    fam = {"axes": [{"name": "Weight", "tag": "wght", "min": 0, "default": 0, "max": 8}], "masters": masters,
+           "lib": {"public.skipExportGlyphs": list(case["dsSkip"])}}
+    ds = dsbuild.build_designspace(fam, case["lib"])
+    inst = InstanceDescriptor()
+    inst.location = {"Weight": 0}        # (at the default master: the instance's glyphs are that master's, exactly)
+    inst.familyName, inst.styleName = "InstSkip", "I0"
+    font = Instantiator.from_designspace(ds).generate_instance(inst)
+    c = {"cid": case["cid"], "lib": case["lib"], "flavor": case["flavor"], "kwargs": dict(case["kwargs"]), "expectSkip": list(case["dsSkip"]),
+         "ufo": {"glyphs": case["masters"][0], "lib": {}}}
+    rec = compile_exec.static_compile(c, glyphsets=False, font=font)
+    if rec.get("skip"):
+        return [rec]
+    rec["events"] = []
+    rec["master"] = 0          # (no hook-event grammar for this record: only the final clauses apply)
+    # the same instance without skipping anything
+    font2 = Instantiator.from_designspace(dsbuild.build_designspace(fam, case["lib"])).generate_instance(inst)
+    c2 = dict(c, cid=case["cid"] + "-noskip", kwargs=dict(case["kwargs"], skipExportGlyphs=[]))
+    r2 = compile_exec.static_compile(c2, glyphsets=False, font=font2)
+    if not r2.get("skip") and "order" in r2.get("ret", {}):
+        rec["noskipOrder"] = r2["ret"]["order"]
+    return [rec]
+
+
 def execute(case):
     if case.get("var"):
         return _execute_var(case)
+    if case.get("inst"):
+        return _execute_inst(case)
     rec = compile_exec.static_compile(case)
     if rec.get("skip"):
         return [rec]
